@@ -2107,7 +2107,7 @@ func (app *App) findBestStreamFrom(node *mysql.Node, clusterState map[string]*no
 func (app *App) performChangeMaster(host, master string) error {
 	// Do we need to change master status here
 	if host == master {
-		panic(fmt.Sprintf("impossible to change master to itself: %s", host))
+		return fmt.Errorf("impossible to change master to itself: %s", host)
 	}
 	node := app.cluster.Get(host)
 	err := node.StopSlave()
